@@ -91,7 +91,8 @@ structure QRp where
 structure Join where
   jid : Nat
   filled : List Nat := []
-  heldEv : List Nat := []
+  /-- (slot, event): the events held for the branches, in slot order (the order in which they are acknowledged) -/
+  heldEv : List (Nat × Nat) := []
   heldRp : List Nat := []
   deriving Repr, DecidableEq
 
@@ -170,6 +171,11 @@ def dropJoin (js : List Join) (jid : Nat) : List Join := js.filter (fun x => !(x
 
 def insertNat (x : Nat) (xs : List Nat) : List Nat := if xs.contains x then xs else xs ++ [x]
 
+/-- hold event `ev` for slot `idx`: kept in slot order -/
+def insertHeld (idx ev : Nat) (xs : List (Nat × Nat)) : List (Nat × Nat) :=
+  if xs.any (fun p => p.2 == ev) then xs
+  else xs.filter (fun p => p.1 ≤ idx) ++ [(idx, ev)] ++ xs.filter (fun p => idx < p.1)
+
 /-- the indices of the batch that starts at `from_` -/
 def batchOf (mc width from_ : Nat) : List Nat :=
   (List.range width).filter (fun i => from_ ≤ i && (mc == 0 || i < from_ + mc))
@@ -192,7 +198,7 @@ def advance (q : Quirks) : Nat → Nat → Sk → List Frame → Option Nat → 
     | .done, f :: outer =>
       -- the branch ends: its result goes into slot `f.idx` of the join; its event is held
       let j := getJoin js f.jid
-      let j := { j with filled := insertNat f.idx j.filled, heldEv := insertNat ev j.heldEv,
+      let j := { j with filled := insertNat f.idx j.filled, heldEv := insertHeld f.idx ev j.heldEv,
                         heldRp := match rp with
                           | some c => if q.replyAckedBeforeJoin then j.heldRp else insertNat c j.heldRp
                           | none => j.heldRp }
@@ -200,7 +206,7 @@ def advance (q : Quirks) : Nat → Nat → Sk → List Frame → Option Nat → 
       let early : List Act := if q.replyAckedBeforeJoin then ackR else []
       if j.filled.length ≥ width then
         -- the join is complete: what follows the fan-out state goes on; the held events (and replies) are released
-        let release : List Act := (j.heldEv.map .ackEv) ++ (j.heldRp.map .ackRp)
+        let release : List Act := (j.heldEv.map (fun p => Act.ackEv p.2)) ++ (j.heldRp.map .ackRp)
         let js' := dropJoin js f.jid
         match f.rest, outer with
         | .done, [] => ([.note true] ++ release ++ early, js')
@@ -210,12 +216,12 @@ def advance (q : Quirks) : Nat → Nat → Sk → List Frame → Option Nat → 
             -- the enclosing join gets the result (it may complete, or finish a batch: that goes first) but holds
             -- nothing for this slot; then the nested join's events are released
             let (acts, js3) := advance q fuel ev .done (g :: outer') none js'
-            let js3 := js3.map (fun x => if x.jid == g.jid then { x with heldEv := x.heldEv.erase ev } else x)
+            let js3 := js3.map (fun x => if x.jid == g.jid then { x with heldEv := x.heldEv.filter (fun p => p.2 != ev) } else x)
             (acts.filter (fun a => a != .ackEv ev) ++ release ++ early, js3)
           else
             -- crash-safe: the nested join's held events and replies stay held, by the enclosing join
             let jo := getJoin js' g.jid
-            let jo := { jo with heldEv := j.heldEv.foldl (fun acc x => insertNat x acc) jo.heldEv,
+            let jo := { jo with heldEv := j.heldEv.foldl (fun acc p => insertHeld g.idx p.2 acc) jo.heldEv,
                                 heldRp := j.heldRp.foldl (fun acc x => insertNat x acc) jo.heldRp }
             let (acts, js3) := advance q fuel ev .done (g :: outer') none (setJoin js' jo)
             (acts ++ early, js3)
@@ -253,6 +259,37 @@ inductive Op where
 
 def fuelOf (c : Cfg) : Nat := c.evq.length + 4
 
+def evStack : EvKind → List Frame
+  | .visit _ s _ => s
+  | .reenter _ _ s => s
+
+/-- (join, slot) of the branch an event belongs to -/
+def evSlot (m : QEv) : Nat × Nat :=
+  match evStack m.kind with
+  | f :: _ => (f.jid, f.idx)
+  | [] => (0, 0)
+
+def slotLe (a b : QEv) : Bool :=
+  (evSlot a).1 < (evSlot b).1 || ((evSlot a).1 == (evSlot b).1 && (evSlot a).2 ≤ (evSlot b).2)
+
+def insertBySlot (m : QEv) : List QEv → List QEv
+  | [] => [m]
+  | x :: xs => if slotLe x m then x :: insertBySlot m xs else m :: x :: xs
+
+/-- A failing Task ends the execution: the other events the engine still holds are acknowledged.  The code walks the
+joins in the order they were made and their slots in order, and cancels the Tasks that are still waiting; a
+cancellation reports back at once, and when it is the first failure its join sees it first tidies up everything
+else (recursively) and acknowledges its own event afterwards.  So: the events of the joins that already failed (those
+around the failing Task) and of later cancellations in slot order, then the first-cancelled ones, last first. -/
+def failAcks (c : Cfg) (v : Vol) (corr : Nat) (xstack : List Frame) : List Act :=
+  let others := (c.evq.filter (fun m => m.unacked && m.id != corr)).foldl (fun acc m => insertBySlot m acc) []
+  let r := others.foldl (fun (r : List Nat × List Nat × List Nat) m =>
+    let (selfAck, listAck, failed) := r
+    if v.pending.contains m.id && !failed.contains (evSlot m).1 then
+      (m.id :: selfAck, listAck, failed ++ (evStack m.kind).map (·.jid))
+    else (selfAck, listAck ++ [m.id], failed)) ([], [], xstack.map (·.jid))
+  (r.2.1 ++ r.1).map Act.ackEv
+
 /-- the reply to `corr` is handled: the Task visit of event `corr` is over -/
 def onReply (q : Quirks) (c : Cfg) (corr : Nat) (v : Vol) : Option (List Act × Vol) :=
   match findEv c corr true with
@@ -261,9 +298,9 @@ def onReply (q : Quirks) (c : Cfg) (corr : Nat) (v : Vol) : Option (List Act × 
     | .visit (.task rest) stack _ =>
       let (acts, js) := advance q (fuelOf c) corr rest stack (some corr) v.joins
       some (acts, { v with pending := v.pending.erase corr, joins := js })
-    | .visit .taskFail _ _ =>
+    | .visit .taskFail xstack _ =>
       -- the execution fails: everything it holds is let go
-      some ([.note true] ++ ((c.evq.filter (·.unacked)).map (fun m => Act.ackEv m.id)) ++ [.ackRp corr],
+      some ([.note true] ++ failAcks c v corr xstack ++ [.ackEv corr, .ackRp corr],
             { v with pending := [], timers := [], joins := [] })
     | _ => none
   | none => none
